@@ -455,7 +455,103 @@ def run_config(ctx: Ctx, cfg: Dict[str, Any], verbose: bool = False) -> bool:
     return W >= 2 and any(l != locs[0] for l in locs[1:])
 
 
+def user_collective_case(ctx: Ctx, cfg: Dict[str, Any], suite: str = "user_collectives"):
+    """Statefuls that communicate: a key registered on EVERY rank whose state_dict()/load_state_dict() issue a collective
+    of their own (DDP / FSDP style), next to rank-exclusive keys registered before or after it in each rank's dict, and
+    optionally one rank with a very large state (> 1024 logical paths).  All ranks must go through the same sequence of
+    collectives - library and user ones interleaved - and get their state back."""
+    import gen
+    import sim
+    import torch
+    from torchsnapshot import Snapshot
+
+    W = cfg["W"]
+    world = sim.World(W)
+    saved: Dict[int, Dict[str, Any]] = {}
+
+    class Talker:
+        def __init__(self, key, sd):
+            self.key, self.sd, self.loaded = key, sd, None
+
+        def state_dict(self):
+            sim.current_world().hub.collective(sim.current_rank(), "user_collective:sd:" + self.key, None)
+            return self.sd
+
+        def load_state_dict(self, sd):
+            sim.current_world().hub.collective(sim.current_rank(), "user_collective:load:" + self.key, None)
+            self.loaded = sd
+
+    def build(rank, zero):
+        app: Dict[str, Any] = {}
+        for k in cfg["order"][rank]:
+            if k in cfg["shared"]:
+                v = {"w": torch.arange(3, dtype=torch.float32) + rank + len(k)}
+                app[k] = Talker(k, {"w": torch.zeros(3)} if zero else v)
+            else:
+                n = cfg.get("big", {}).get(k, 0)
+                v = {"x": rank * 10 + len(k)} if not n else {f"s{i}": i + rank for i in range(n)}
+                app[k] = gen.RecStateful({kk: (-1) for kk in v} if zero else v)
+        return app
+
+    def take(rank, pg):
+        app = build(rank, False)
+        saved[rank] = {k: gen.deep_clone(getattr(v, "sd", None)) for k, v in app.items()}
+        if cfg["async"]:
+            Snapshot.async_take("/c12/talk", app, pg=pg).wait()
+        else:
+            Snapshot.take("/c12/talk", app, pg=pg)
+        return True
+
+    def restore(rank, pg):
+        app = build(rank, True)
+        Snapshot("/c12/talk", pg=pg).restore(app)
+        out = {}
+        for k, v in app.items():
+            out[k] = gen.deep_eq(saved[rank][k], v.loaded)
+        return out
+
+    with sim.knobs(budget=10 ** 9 if cfg.get("override") else None):
+        res = world.run(take)
+        bad = [(r, x[1]) for r, x in enumerate(res) if x[0] != "ok"]
+        if not bad:
+            res2 = world.run(restore)
+            bad = [(r, x[1]) for r, x in enumerate(res2) if x[0] != "ok"]
+            if not bad:
+                for r, x in enumerate(res2):
+                    for k, d in x[1].items():
+                        if d is not None:
+                            ctx.fail("restore-wrong-state", f"rank {r} key {k!r} did not get back what it saved: {d}", dict(cfg, user_collectives=True), None, suite=suite)
+    for r, e in bad:
+        sig = "collective-mismatch" if isinstance(e, sim.Mismatch) else "rank-raised"
+        ctx.fail("user-" + sig, f"rank {r}: {type(e).__name__}: {str(e)[:300]}", dict(cfg, user_collectives=True), None, suite=suite)
+        break
+    ctx.count("user_collectives.jobs")
+    if cfg.get("big"):
+        ctx.count("user_collectives.big_manifest")
+    ctx.case(suite, cfg, nontrivial=True, key=cfg)
+
+
+def gen_user_collective_cfg(rng, big: bool = False) -> Dict[str, Any]:
+    W = rng.choice([2, 2, 3])
+    shared = rng.sample(["model", "optim", "zshared"], rng.randint(1, 2))
+    order = []
+    bigmap = {}
+    for r in range(W):
+        excl = [k for k in rng.sample(["aprog", "progress", "zlast", "mid%", "n/k"], rng.randint(0, 2))]
+        excl = [f"{k}{r}" if rng.random() < 0.5 else k for k in excl]
+        ks = shared + excl
+        rng.shuffle(ks)
+        order.append(ks)
+    if big:
+        r = rng.randrange(W)
+        order[r].append("bigstate")
+        bigmap["bigstate"] = 1100
+    return {"W": W, "shared": shared, "order": order, "async": rng.random() < 0.4, "override": rng.random() < 0.5, "big": bigmap}
+
+
 def run(ctx: Ctx):
+    for i in range(ctx.n(24, 300)):
+        user_collective_case(ctx, gen_user_collective_cfg(ctx.rng, big=(i % 8 == 0)))
     # the runner's deadline counts the Lean build; on a loaded machine keep at least 60% of the budget for the cases
     import time
     import os as _os
@@ -588,6 +684,11 @@ def run_gloo(ctx: Ctx, cfg: Dict[str, Any], idx: int, verbose: bool = False):
 
 def replay(ctx: Ctx, rec):
     cfg = rec["input"]
+    if cfg.get("user_collectives"):
+        user_collective_case(ctx, {k: v for k, v in cfg.items() if k != "user_collectives"}, "replay")
+        for f in ctx.failures[:5]:
+            print("FAIL", f["sig"], f["what"])
+        return
     if "cfg" in cfg and "W" not in cfg:
         cfg = cfg["cfg"]
     if cfg.get("gloo"):
